@@ -982,7 +982,7 @@ pub fn run(ctx: &mut Ctx) -> &'static str {
         case_x(ctx, idx, &[missing.clone(), other], false, &no_path);
     }
     // (4) array / object / quoted-string cells
-    let ok_resp = json!({"request": {"origin_vertex": 0, "destination_vertex": 2, "name": "say \"hi\", twice"},
+    let ok_resp = json!({"request": {"origin_vertex": 0, "destination_vertex": 2, "name": "5\" nails, 2 boxes"},
         "route": {"path": [0, 2], "traversal_summary": {"distance": 1.5, "time": 0.25, "energy": null}}});
     if let (idx, true) = begin!() {
         case_f(ctx, idx, &csv(&[("origin", p("request.origin_vertex")), ("path", p("route.path"))], false), &ok_resp);
